@@ -36,6 +36,9 @@ def gen_case(r):
         lit = c11.special_arg(r)
         while isinstance(lit, PathT):
             lit = c11.pathy_literal(r)
+        if r.pct() < 30:
+            # a literal mapping whose only key is spelled like the callable's own parameter
+            lit = {r.choice(["value", "key", "keys", "N"]): G.json_value(r, 0)}
         cond = Leaf("value", None, r.choice(["equal_to", "not_equal_to"]), kwargs={"value": lit})
         parts = list(p.parts)
         part = Part(r.choice(["map", "list", "mol"]), value=cond, label=r.choice([None, "L"]))
